@@ -596,7 +596,7 @@ theorem tokenizer_morpheme_codepoints (lv : LenV) (cfg : Cfg) (orig : List Nat) 
     (rv : Oov.Variant) (bowFix : Bool) (tab : List (Nat × Nat))
     (hmk : ∀ chars, Oov.mkBufV rv bowFix tab chars = some (cfg.mkBuf chars))
     (hrowsz : ∀ chars nodes, Reaches lv cfg orig chars → Oov.buildLattice cfg.providers cfg.lex (cfg.mkBuf chars) = .ok nodes →
-      ∀ e, (nodes.map toVit).countP (fun n => n.e == e) ≤ 65535)
+      ∀ e, (nodes.map toVit).countP (fun n => n.e == e) ≤ 4294967295)
     (hrew : ∀ (tb2c tc2b : List Nat) (nc nb : Nat) path path', PathOk tb2c tc2b nc nb path → cfg.rewrite path = .ok path' →
       PathOk tb2c tc2b nc nb (path'.map (·.1)))
     (r : Result) (h : tokenize .d6fix lv cfg orig = .ok r) :
@@ -625,7 +625,7 @@ theorem pipe_morpheme_codepoints (lv : LenV) (orig : List Nat) (horig : BoOf ori
       Wire.utf8Decode (textOf l) = some chars → textOf l = TotalIO.encode chars)
     (hrowsz : ∀ chars nodes, Reaches lv (TotalIO.mkCfg plugins rv bowFix rs ps lex conn units) orig chars →
       Oov.buildLattice ps lex (TotalIO.mkBufOf rv bowFix (CharCat.compile rs) chars) = .ok nodes →
-      ∀ e, (nodes.map toVit).countP (fun n => n.e == e) ≤ 65535)
+      ∀ e, (nodes.map toVit).countP (fun n => n.e == e) ≤ 4294967295)
     (r : Result) (h : tokenize .d6fix lv (TotalIO.mkCfg plugins rv bowFix rs ps lex conn units) orig = .ok r) :
     ∀ m ∈ r.morphs, ∃ a, access orig r.tables m = .ok a ∧
       a.b ≤ a.e ∧ a.e ≤ orig.length ∧ BoOf orig a.b ∧ BoOf orig a.e ∧
